@@ -378,9 +378,10 @@ class C14(Prop):
             "cumulated_range), rebin (arbitrary source classes incl. zero width, int64 contents -> breaks incl. repeated breaks / class count "
             "(int, numpy integer) / single interval / invalid binnings; twice, second target arbitrary / coarsening the first), rebin2d (two "
             "interval levels, NaN contents, nan_default, third non-interval level, class count), combine (sum/min/max/mean, int64 and float "
-            "mixed, level order permuted), pipe (re-bin to a common binning + combine, NaN), chain (collective -> range_histogram -> re-bin -> "
-            "combine).  All numbers dyadic so that + - x are exact; model lines are compared bit-exactly except class contents of "
-            "rebin/combine (relative 1e-12, summation order).  "
+            "mixed, level order permuted), combine2d (combination of two-level histograms, NaN contents, level order swapped / rows reversed; oracle only), pipe (re-bin to a "
+            "common binning + combine, NaN), chain (collective -> range_histogram -> re-bin -> "
+            "combine).  All numbers dyadic so that + - x are exact; model lines are compared bit-exactly except the lines of the kinds "
+            "rebin / rebin2d / combine / pipe / chain (1e-12 relative to the largest magnitude on the line, summation order).  "
             "non-trivial = at least one non-empty class / a derived quantity that is not zero; distinct by full case")
     ASSUMPTIONS = [
         "numpy's np.histogram / np.histogram2d / np.linspace and pandas' IntervalIndex (from_breaks, overlaps, mid), groupby and "
@@ -391,17 +392,22 @@ class C14(Prop):
         "counts and the sign of zero are not generated; R for upper = 0 != lower is +-inf in the code and in the Float run of the model, "
         "the real-number theorems exclude it by `upper r != 0`)",
         "re-binning: a source class of zero width is a point mass that goes to the target class numpy's bin rule puts the point in "
-        "(repaired behaviour, fix C14-rebin-zero-width-class; before the fix its content was dropped: finding class rebin-zero-width-source); "
+        "(repaired behaviour, /repo commit d3f7088; before the fix its content was dropped: finding class rebin-zero-width-source, fixed by d3f7088); "
         "NaN contents are modelled as absent contents (Option; skipped by sums as pandas' groupby-sum / Series.sum do), nan_default=True as "
         "'no occupied source class overlaps'; aggregations other than sum (min/max/mean), the combination of two-level histograms, "
         "two-level re-binning with NaN contents / an integer class count / a third non-interval level, LoadHistogram with a Series operand "
-        "or the left/right class location are checked by the oracle only; LoadHistogram.scale with a negative factor is rejected by "
+        "or the left/right class location, interval bins with gaps or overlaps (must be rejected), invalid re-bin targets, a numpy integer "
+        "as class count, amplitude_histogram, cumulated_range, the recorder's histogram_numpy and 'inputs unchanged / asking again gives "
+        "the same answers' are checked by the oracle only; LoadHistogram.scale with a negative factor is rejected by "
         "pandas (left > right); the state of accessor objects is not modelled (every case builds fresh objects)",
         "the pandas interval labels '(a, b]' of a histogram are labels only; class membership follows numpy's rule (a <= v < b, last class "
         "closed); bins given as a left-closed IntervalIndex come back labelled right-closed with the same contents",
         "the clause 'and composes' is literally false for overlap-proportional re-binning (theorem rebin_compose_literal_false, corpus "
         "compose-literal-false; the oracle counts how often A->B->C differs from A->C: distribution.compose_literal_differs); proved and "
-        "checked: totals always compose, contents compose when the middle binning refines the source or the last binning coarsens the middle one",
+        "checked: totals always compose (rebin_compose_conserves_total); contents compose under guards - source classes of positive width, the "
+        "middle binning B strictly increasing, and either B covers the source and refines it (rebin_compose_of_refines, "
+        "rebin_compose_of_breaks_subset) or every break of the last binning is a break of B (rebin_compose_of_target_coarsens).  Reading "
+        "'and composes' as 'totals compose' is an INTERPRETATION of the property text, not a finding against the code",
     ]
     PARALLEL = 8          # impl_lines / oracle are sharded over forked processes by core.pmap
 
@@ -1371,7 +1377,8 @@ class C14(Prop):
         again = (lc.amplitude.to_numpy(float), lc.meanstress.to_numpy(float), lc.upper.to_numpy(float), lc.lower.to_numpy(float))
         changed = not df.equals(df0) or not df.index.equals(df0.index)
         if changed or any(list(x) != list(y) for x, y in zip(again, (amp, mean, up, lo))):
-            # mechanism of the documented defect: a scalar operand is applied IN PLACE (the returned collective is the caller's object)
+            # mechanism of the former defect (collective-scale-shift-in-place, fixed by 3af2b75): a scalar operand was applied IN PLACE
+            # (the returned collective was the caller's object)
             in_place = case["operand"]["t"] == "scalar" and list(again[0]) == list(a2) and list(again[1]) == list(m2)
             d = (f"{case['op']}({case['operand'].get('v')}) changed the collective it was called on"
                  + (" (the caller's DataFrame now holds the scaled / shifted loads)" if changed else " (its amplitudes / means are now the scaled / shifted ones)"))
@@ -1666,8 +1673,8 @@ class C14(Prop):
         lo, hi = min(s[0] for s in src), max(s[1] for s in src)
 
         def total_cls(got, what):
-            """Finding for a total that is not conserved.  The documented defect `rebin-zero-width-source` (the content of source
-            classes of zero width vanishes) is recognised by its mechanism: exactly the zero-width content is missing."""
+            """Finding for a total that is not conserved.  The former defect `rebin-zero-width-source` (the content of source
+            classes of zero width vanished; fixed by d3f7088) is recognised by its mechanism: exactly the zero-width content is missing."""
             if zero_total > 0 and core.close(got, total - zero_total, rtol=1e-9):
                 return (f"{what}: total {got} != {total}: the content {zero_total} of the zero-width source class(es) "
                         f"{[s for s in src if s[0] == s[1] and s[2]]} is lost", "rebin-zero-width-source")
